@@ -30,6 +30,9 @@ REQUIRED_PROBES = ('limit_struck_in_search', 'complete_within_limit', 'proj_rais
                    'initial_limit_below_given_limit')
 
 HIGH_LIMIT = 4000      # limit in force for the reference enumeration and the harness itself
+WALL_CAP_S = 90
+NO_RERUN = True          # the line tracer's own frames would shift where the depth limit strikes
+CRASH_CLASS = 'interpreter-aborted'     # a run that kills the interpreter (stack overflow abort) is a verdict here
 WINDOW = (8, 243)
 MARGIN = 12
 LIB_SRC = '''
